@@ -7,7 +7,7 @@ package forwarder
 // writes the responses of a scripted origin to a captured connection; the captured bytes are parsed back by an
 // HTTP/1 client parser and compared with what the origin produced.
 //
-//vf:assume C02-pipe: two exchanges per connection; per response: status from {200,404,204,304,500}, <=2 header fields from a pool (end-to-end incl. a repeated Set-Cookie, hop-by-hop, Connection nomination) with symbolic values, body of 3 symbolic bytes delimited by Content-Length / unknown length (chunked to 1.1 clients, close-delimited to 1.0) / with declared trailer; request methods GET/HEAD; client protocol 1.0/1.1
+//vf:assume C02-pipe: two exchanges per connection; per response: status from {200,404,204,304,500}, <=2 header fields from a pool (end-to-end incl. a repeated Set-Cookie, hop-by-hop, Connection nomination) with symbolic values, body of 3 symbolic bytes delimited by Content-Length / unknown length (chunked to 1.1 clients, close-delimited to 1.0) / with declared trailer / close-delimited HTTP/1.0 origin reply; request methods GET/HEAD; client protocol 1.0/1.1
 //vf:assume C02-pipe: gzip handling and timing of delivery are properties of http.Transport / the kernel and outside; incremental flushing is decided in vfH_C02_flush
 
 import (
@@ -29,6 +29,7 @@ type vfOriginResponse struct {
 	body    []byte
 	length  int64 // -1 unknown
 	trailer bool
+	http10  bool // the origin answers in HTTP/1.0 (unknown length = close-delimited)
 }
 
 type vfSentField struct{ name, value string }
@@ -56,7 +57,7 @@ func vfMakeResponse(i int) vfOriginResponse {
 		return r
 	}
 	r.body = vfrt.Bytes("body", 3)
-	switch vfrt.Choice("framing", 3) {
+	switch vfrt.Choice("framing", 4) {
 	case 0:
 		r.length = 3
 	case 1:
@@ -64,6 +65,9 @@ func vfMakeResponse(i int) vfOriginResponse {
 	case 2:
 		r.length = -1
 		r.trailer = true
+	case 3:
+		r.length = -1
+		r.http10 = true
 	}
 	return r
 }
@@ -77,7 +81,9 @@ func (r vfOriginResponse) build(req *http.Request) *http.Response {
 	if req.Method == "HEAD" || r.code == 204 || r.code == 304 {
 		res.Body = http.NoBody
 	}
-	if r.length == -1 {
+	if r.http10 {
+		res.Proto, res.ProtoMinor, res.Close = "HTTP/1.0", 0, true
+	} else if r.length == -1 {
 		res.TransferEncoding = []string{"chunked"}
 	}
 	if r.trailer {
@@ -100,7 +106,7 @@ func vfResHop(name string, fields []vfSentField) bool {
 	return false
 }
 
-//vf:harness property=C02 nopanic reach=c02-two-exchanges,c02-head,c02-chunked,c02-close-delimited,c02-trailer steps=10000000
+//vf:harness property=C02 nopanic reach=c02-two-exchanges,c02-head,c02-chunked,c02-close-delimited,c02-trailer,c02-origin-http10 steps=10000000
 func vfH_C02_pipe() {
 	cfg := HTTPProxyConfig{}
 	cfg.Name = "fw"
@@ -177,7 +183,10 @@ func vfH_C02_pipe() {
 			vfrt.Reach("c02-trailer")
 			vfrt.Assert(res.Trailer.Get("X-Sum") == "t1", "c02/declared-trailer-delivered")
 		}
-		if o.length == -1 && wantBody != nil {
+		if o.http10 && wantBody != nil {
+			vfrt.Reach("c02-origin-http10")
+			vfrt.Assert(res.Close, "c02/close-delimited-origin-body-closes-the-client-connection")
+		} else if o.length == -1 && wantBody != nil {
 			if proto == "HTTP/1.1" {
 				vfrt.Reach("c02-chunked")
 				vfrt.Assert(len(res.TransferEncoding) == 1 && res.TransferEncoding[0] == "chunked", "c02/unknown-length-is-chunked-for-1.1")
